@@ -1,4 +1,5 @@
 import AFProofs.Lemmas.Query
+import AFProofs.Lemmas.QuerySql
 
 /-!
 # C10 — database queries return exactly the fits satisfying the predicate
@@ -386,5 +387,169 @@ theorem pySliceStep_one {β} (l : List β) (start stop : Option Int) :
 
 example : pySliceStep [10, 11, 12, 13, 14] none none (-1) = [14, 13, 12, 11, 10] := by decide
 example : pySliceStep [10, 11, 12, 13, 14] (some 4) (some 1) (-1) = [14, 13, 12] := by decide
+
+end AF.C10
+
+namespace AF.C10
+open AF.Query
+
+/-! ## junctions hold their conditions in a set; the printed SQL
+
+`mkJS` / `compileS` (`AFModel/QuerySql.lean`) are `_match_conditions` with the python set: equal conditions are
+kept once, a single remaining condition is returned as it is, the conditions are listed sorted by their SQL string.
+`same` is the equality used (`Q.same`, structural, for which the hypotheses below are proved; the driver also runs
+equality of the SQL strings, as `AbstractCondition.__eq__` does, and reports whether both built the same query).
+`sqlStr` / `fitSql` print the text from the query built here; the harness compares it with the text of the real
+objects on every generated predicate. -/
+
+variable {α : Type}
+
+/-- structural equality of query objects is equality: `SoundEq Q.same`, and it is reflexive -/
+theorem same_is_equality [DecidableEq α] (a b : Q α) : Q.same a b = true ↔ a = b :=
+  Q.same_iff a b
+
+/-- **A junction's conditions are a set**, listed sorted: the same members as the conditions given, each once,
+ordered by SQL string. -/
+theorem junction_conditions_are_a_set [DecidableEq α] (key : Q α → String) (l : List (Q α)) :
+    (∀ x, x ∈ canon Q.same key l ↔ x ∈ l) ∧ (canon Q.same key l).Nodup ∧
+      (canon Q.same key l).Pairwise (fun a b => ¬ key b < key a) := by
+  refine ⟨fun x => mem_canon Q.same_sound key, nodup_canon Q.same_refl key l, ?_⟩
+  have := sorted_canon Q.same key l
+  simpa [keyLe] using this
+
+/-- **And, as a set.** `And(*cs)` with flattening, merging by name, de-duplication and collapse holds iff every
+argument holds. -/
+theorem and_set_correct (ops : NumOps α) (f : Fit α) (cfg : Cfg) (hcfg : cfg.junctionKeepsNot = true)
+    {same : Q α → Q α → Bool} (hs : SoundEq same) (key : Q α → String) (fuel : Nat)
+    (cs : List (Q α)) (o : Obj α) (hwf : o.WF = true) :
+    sem ops f (mkJS cfg true same key fuel true cs) o = cs.all (fun c => sem ops f c o) := by
+  simpa [jsem] using mkJS_sem ops f cfg hcfg hs key fuel true cs o hwf
+
+/-- **Or, as a set.** -/
+theorem or_set_correct (ops : NumOps α) (f : Fit α) (cfg : Cfg) (hcfg : cfg.junctionKeepsNot = true)
+    {same : Q α → Q α → Bool} (hs : SoundEq same) (key : Q α → String) (fuel : Nat)
+    (cs : List (Q α)) (o : Obj α) (hwf : o.WF = true) :
+    sem ops f (mkJS cfg true same key fuel false cs) o = cs.any (fun c => sem ops f c o) := by
+  simpa [jsem] using mkJS_sem ops f cfg hcfg hs key fuel false cs o hwf
+
+/-- **Idempotence under duplicates / order.** What a junction means depends only on *which* conditions it is given:
+repeating a condition (`A & B & A`) or permuting them changes nothing, for `And` and for `Or`. -/
+theorem junction_depends_on_set (ops : NumOps α) (f : Fit α) (cfg : Cfg) (hcfg : cfg.junctionKeepsNot = true)
+    {same : Q α → Q α → Bool} (hs : SoundEq same) (key : Q α → String) (fuel : Nat) (isAnd : Bool)
+    (cs₁ cs₂ : List (Q α)) (h : ∀ x, x ∈ cs₁ ↔ x ∈ cs₂) (o : Obj α) (hwf : o.WF = true) :
+    sem ops f (mkJS cfg true same key fuel isAnd cs₁) o = sem ops f (mkJS cfg true same key fuel isAnd cs₂) o := by
+  rw [mkJS_sem ops f cfg hcfg hs key fuel isAnd cs₁ o hwf, mkJS_sem ops f cfg hcfg hs key fuel isAnd cs₂ o hwf]
+  exact jsem_of_mem_iff ops f h isAnd o
+
+/-- a repeated condition is dropped without changing the meaning: `And(c, c, *cs) ~ And(c, *cs)` -/
+theorem junction_duplicate_idempotent (ops : NumOps α) (f : Fit α) (cfg : Cfg) (hcfg : cfg.junctionKeepsNot = true)
+    {same : Q α → Q α → Bool} (hs : SoundEq same) (key : Q α → String) (fuel : Nat) (isAnd : Bool)
+    (c : Q α) (cs : List (Q α)) (o : Obj α) (hwf : o.WF = true) :
+    sem ops f (mkJS cfg true same key fuel isAnd (c :: c :: cs)) o = sem ops f (mkJS cfg true same key fuel isAnd (c :: cs)) o :=
+  junction_depends_on_set ops f cfg hcfg hs key fuel isAnd _ _ (fun x => by simp) o hwf
+
+/-- **Compiler correctness with sets (one fit).** -/
+theorem compile_set_correct (ops : NumOps α) (cfg : Cfg) (hcfg : cfg.junctionKeepsNot = true)
+    {same : Q α → Q α → Bool} (hs : SoundEq same) (key : Q α → String) (p : Pred α)
+    (f : Fit α) (hwf : f.inst.WF = true) :
+    sem ops f (compileSTop cfg true same key p) f.inst = evalDirect ops f p :=
+  sem_compileS ops f cfg hcfg hs key _ hwf p
+
+/-- **Exactly the fits satisfying the predicate**, for the query object the SQL text is printed from. -/
+theorem query_set_returns_exactly (ops : NumOps α) (cfg : Cfg) (hcfg : cfg.junctionKeepsNot = true)
+    {same : Q α → Q α → Bool} (hs : SoundEq same) (key : Q α → String) (p : Pred α)
+    (db : List (Fit α)) (hdb : ∀ f ∈ db, f.inst.WF = true) :
+    queryFits ops (compileSTop cfg true same key p) db = directFits ops p db := by
+  simp only [queryFits, directFits]
+  apply List.filter_congr
+  intro f hf
+  exact compile_set_correct ops cfg hcfg hs key p f (hdb f hf)
+
+/-- de-duplication cannot change which fits are selected: the set version and the list version agree -/
+theorem query_set_agrees_with_list (ops : NumOps α) (cfg : Cfg) (hcfg : cfg.junctionKeepsNot = true)
+    {same : Q α → Q α → Bool} (hs : SoundEq same) (key : Q α → String) (p : Pred α)
+    (db : List (Fit α)) (hdb : ∀ f ∈ db, f.inst.WF = true) :
+    queryFits ops (compileSTop cfg true same key p) db = queryFits ops (compileTop cfg p) db := by
+  rw [query_set_returns_exactly ops cfg hcfg hs key p db hdb, query_returns_exactly ops cfg hcfg p db hdb]
+
+/-! ### the text -/
+
+/-- the tables joined in the printed text of `Named(n, c)` are exactly the tables its meaning (`sem`: `inTables
+(contrib c)`) makes the child row survive -/
+theorem named_text_joins_contrib (showNum : α → String) (n : String) (c : Q α) :
+    ∃ parts, namedQ showNum n c = namedQueryText n (contrib c) parts := by
+  cases c <;> exact ⟨_, rfl⟩
+
+/-- `IN` / `NOT IN` in the text is the `inverted` flag of the named query, whose meaning is the complement -/
+theorem named_text_not_in (showNum : α → String) (n : String) (inv : Bool) (c : Q α) :
+    fitSql showNum (.named n inv c)
+      = "SELECT id FROM fit WHERE instance_id " ++ (if inv then "NOT IN" else "IN") ++ " (" ++ namedQ showNum n c ++ ")" := by
+  cases inv <;> rfl
+
+/-- `~q` in the text: a named query flips `IN` / `NOT IN`; anything else is wrapped in `id NOT IN (…)`; undone by a
+second `~` -/
+theorem negation_text (showNum : α → String) (q : Q α) :
+    fitSql showNum (invert q) =
+      match q with
+      | .named n inv c => fitSql showNum (.named n (!inv) c)
+      | .inverted q' => fitSql showNum q'
+      | q => "SELECT id FROM fit WHERE id NOT IN (" ++ fitSql showNum q ++ ")" := by
+  cases q <;> first | rfl | (simp only [invert]; rw [fitSql])
+
+/-- the text of a junction's `fit_query` depends only on which conjuncts there are, not on the order a python set
+lists them in (the harness sorts the conjuncts of the real text for the same reason) -/
+theorem junction_text_order_irrelevant (isAnd : Bool) (fqs₁ fqs₂ : List String) (h : fqs₁.Perm fqs₂) :
+    junctionFitText isAnd fqs₁ = junctionFitText isAnd fqs₂ := by
+  have hp := sortStrs_perm (h.map (fun s => "id IN (" ++ s ++ ")"))
+  unfold junctionFitText
+  rw [hp]
+
+/-! ### non-vacuity -/
+
+open Witness
+
+example : SoundEq (fun a b : Q Nat => Q.same a b) := Q.same_sound
+-- the repeated comparison is kept once (list version: `g(&[centre(&[V,V]),sigma(V)])`)
+example : (compileSTop {} true Q.same Q.render dupPred).render = "g(&[centre(V),sigma(V)])" := by decide +kernel
+example : (compileTop {} dupPred).render = "g(&[centre(&[V,V]),sigma(V)])" := by decide
+-- `A & A` is `A`
+example : (compileSTop {} true Q.same Q.render
+    ((.and (.fitc (.boolAttr "is_complete")) (.fitc (.boolAttr "is_complete"))) : Pred Nat)).render = "F" := by
+  decide +kernel
+example : (queryFits natOps (compileSTop {} true Q.same Q.render dupPred) db).map (·.id) = ["a"] := by decide +kernel
+example : (queryFits natOps (compileSTop {} true Q.same Q.render mixed) db).map (·.id) = ["a", "b", "c", "e"] := by
+  decide +kernel
+example : (canon Q.same Q.render ([Q.type "b", Q.isNone, Q.type "b", Q.type "a"] : List (Q Nat))).map Q.render
+    = ["0", "T", "T"] := by decide +kernel
+example : junctionFitText true ["x", "y"] = junctionFitText true ["y", "x"] :=
+  junction_text_order_irrelevant true _ _ (List.Perm.swap "y" "x" [])
+
+/-! ### bare paths as predicates (`agg.model.g`: the attribute exists) -/
+
+/-- **Bare path.** `aggregator.model.a.b` used as a predicate selects the fits whose instance has `a.b`. -/
+theorem bare_path_correct {α : Type} (ops : NumOps α) (f : Fit α) (hwf : f.inst.WF = true) (n : String) (ns : List String) :
+    sem ops f (pathQ (n :: ns) .any) f.inst = (f.inst.follow (n :: ns)).isSome := by
+  rw [path_comparison_correct ops f hwf n ns .any]
+  cases f.inst.follow (n :: ns) <;> simp [leafHolds]
+
+/-- The pinned commit (`bare = false`: a named query without other condition is merged under `Or` and its missing
+condition skipped) violates the property: `g | (g.centre == 1)` returns only the fits with `centre == 1`.
+(`compile_set_correct` is the positive statement, for `bare = true`, fixes/C10-bare-path-in-junction.patch.) -/
+theorem compile_refuted_bare_or :
+    ∃ (p : Pred Nat) (db : List (Fit Nat)), (∀ f ∈ db, f.inst.WF = true) ∧
+      (queryFits Witness.natOps (compileSTop {} false Q.same Q.render p) db).map (·.id)
+        ≠ (directFits Witness.natOps p db).map (·.id) :=
+  ⟨Witness.bareOr, Witness.db, by decide, by decide +kernel⟩
+
+-- repaired: every fit has `g`; pinned: the alternative is lost
+example : (queryFits natOps (compileSTop {} true Q.same Q.render bareOr) db).map (·.id) = ["a", "b", "c", "d", "e"] := by
+  decide +kernel
+example : (directFits natOps bareOr db).map (·.id) = ["a", "b", "c", "d", "e"] := by decide +kernel
+example : (queryFits natOps (compileSTop {} false Q.same Q.render bareOr) db).map (·.id) = ["a", "c"] := by
+  decide +kernel
+example : (compileSTop {} true Q.same Q.render bareOr).render = "|[g(&[]),g(centre(V))]" := by decide +kernel
+-- under `&` the bare query is merged (its missing condition is an empty conjunction)
+example : (compileSTop {} true Q.same Q.render
+    (.and (.path "g" [] .any) (.path "g" ["centre"] (.num .eq 1)) : Pred Nat)).render = "g(centre(V))" := by decide +kernel
 
 end AF.C10
